@@ -38,6 +38,14 @@ func fixedScenarios() []*Scenario {
 		{NReload: 2, Shuts: []int{bOK}, Stops: []int{bOK}, Rounds: []Round{{Trig: 1, CancelAt: 1}}},
 		// bad address
 		{Tracing: true, Listen: lBad, Readies: []int{bOK}, Shuts: []int{bOK}, Stops: []int{bOK}},
+		// StartTLS: the key pair cannot be loaded (K09f); StartTLS and StartMTLS: the full sequence with requests in flight
+		{Proto: pTLS, Metrics: true, Tracing: true, Listen: lCert, Starts: []int{bOK}, Readies: []int{bOK, bOK}, Shuts: []int{bOK}, Stops: []int{bOK}},
+		{Proto: pTLS, Metrics: true, Tracing: true, Starts: []int{bOK}, Readies: []int{bOK}, NReload: 1, Shuts: []int{bOK, bOK}, Stops: []int{bOK, bPanic},
+			Reqs: []Rel{{Kind: "H", J: 1}, {Kind: "D"}}, Rounds: []Round{{Trig: 0, Beh: []int{bPanic}, CancelAt: -1}}},
+		{Proto: pMTLS, Metrics: true, Tracing: true, Starts: []int{bOK, bOK}, Readies: []int{bOK}, Shuts: []int{bOK}, Stops: []int{bOK},
+			Reqs: []Rel{{Kind: "D"}, {Kind: "N"}}},
+		{Proto: pMTLS, Metrics: true, Listen: lBusy, Starts: []int{bOK}, Readies: []int{bOK}, Stops: []int{bOK}},
+		{Proto: pTLS, Tracing: true, Starts: []int{bOK, bErr}, Readies: []int{bOK}, Stops: []int{bOK}},
 	}
 }
 
@@ -72,7 +80,11 @@ func genScenario(r *hx.Rand, tier string) *Scenario {
 	sc := &Scenario{}
 	sc.Metrics = r.Chance(1, 2)
 	sc.Tracing = r.Chance(1, 2)
+	sc.Proto = pickW(r, []int{pHTTP, pTLS, pMTLS}, []int{60, 25, 15})
 	sc.Listen = pickW(r, []int{lOK, lBusy, lBad}, []int{88, 7, 5})
+	if sc.Proto == pTLS && r.Chance(1, 12) {
+		sc.Listen = lCert
+	}
 	sc.Starts = genHooks(r, []int{bOK, bErr, bPanic, bBlock, bCancelOK}, []int{84, 5, 2, 4, 5})
 	sc.Readies = genHooks(r, []int{bOK, bPanic}, []int{85, 15})
 	sc.NReload = pickW(r, []int{0, 1, 2, 3}, []int{3, 3, 3, 2})
